@@ -385,6 +385,10 @@ M("C05", "turbomole-correction-applied-to-pure-shells", F + "molden.py", r'     
 M("C05", "orca-correction-multiplied", F + "molden.py", r"(def _fix_obasis_orca(?:.|\n)*?)fixed_shell\.coeffs\[iprim, 0\] /= correction", "\\1fixed_shell.coeffs[iprim, 0] *= correction", "C05-R10")
 M("C05", "orca-basis-keeps-input-conventions", F + "molden.py", r"return MolecularBasis\(fixed_shells, orca_conventions, obasis\.primitive_normalization\)", "return MolecularBasis(fixed_shells, obasis.conventions, obasis.primitive_normalization)", "C05-R10")
 
+M("C02", "fcidump-strict-pair-order", F + "fcidump.py", r"\(i0 \* \(i0 \+ 1\)\) / 2 \+ i1 >= \(i2 \* \(i2 \+ 1\)\) / 2 \+ i3", "(i0 * (i0 + 1)) / 2 + i1 > (i2 * (i2 + 1)) / 2 + i3", "C02-R22")
+M("C02", "fcidump-inner-loop-one-short", F + "fcidump.py", r"                for i3 in range\(i2 \+ 1\):", "                for i3 in range(i2):", "C02-R22")
+M("C02", "fcidump-writer-index-order", F + "fcidump.py", r"value = two_mo\[i0, i2, i1, i3\]", "value = two_mo[i0, i1, i2, i3]", "C02-R22")
+
 # ----------------------------------------------------------------------------- additions (fourth round, batch 6)
 M("C07", "extxyz-title-parsed-after-putback", F + "extxyz.py", r"    atom_columns, title_data = _parse_title\(title_line, lit\)\n    lit\.back\(title_line\)\n    lit\.back\(atom_line\)\n", "    lit.back(title_line)\n    lit.back(atom_line)\n    atom_columns, title_data = _parse_title(title_line, lit)\n", "C07-R8")
 M("C07", "mol2-atom-loop-skips-blank-lines", F + "mol2.py", r"(    for i in range\(natoms\):\n        words = next\(lit\)\.split\(\)\n)", "\\1        if not words:\n            continue\n", "C07-R9")
